@@ -4,8 +4,9 @@
    [conn T S i j] : i and j are linked by a chain of T-overlaps all of whose members are in S.
    The touch predicate T is the implementation's own (exported as a matrix by the harness); its
    relation to the exact predicate nf(r+r') >= |z-z'| is C07_touch_* below. *)
-From Coq Require Import List Arith Bool Permutation ZArith Reals.
-From MPSV Require Import Cluster.ClusterModel Cluster.ClusterProps Cluster.Touch.
+From Coq Require Import List Arith Bool Permutation ZArith Reals Lia.
+From Flocq Require Import Core.
+From MPSV Require Import Cluster.ClusterModel Cluster.ClusterProps Cluster.ClusterSpec Cluster.Touch Cluster.TouchFlocq.
 Import ListNotations.
 Local Open Scope nat_scope.
 
@@ -90,6 +91,29 @@ Theorem C07_par_eq_seq : forall T old,
 Proof. exact cluster_par_eq_seq. Qed.
 Print Assumptions C07_par_eq_seq.
 
+(* the executable specification [components] (saturation of the symmetrised touch relation inside
+   each old cluster -- the second opinion printed by the driver and compared by the check) is
+   itself correct: its classes are the chain-connected components *)
+Theorem C07_components_spec : forall T,
+  (forall a b, T a b = T b a) ->
+  forall old cl i j,
+  NoDup (concat old) -> In cl old -> In i cl -> In j cl ->
+  ((exists c, In c (components T old) /\ In i c /\ In j c) <-> conn T cl i j).
+Proof. exact components_spec. Qed.
+Print Assumptions C07_components_spec.
+
+(* corollary: traversal model = specification as sets of sets (same classes; both are partitions
+   of the same index set by C07_partition / the refinement lemmas) *)
+Theorem C07_model_eq_spec : forall T,
+  (forall a b, T a b = T b a) ->
+  forall old new,
+  Permutation (concat old) (seq 0 (length (concat old))) ->
+  cluster_seq T false old = Some new ->
+  forall i j, (exists c, In c new /\ In i c /\ In j c) <->
+              (exists c, In c (components T old) /\ In i c /\ In j c).
+Proof. exact model_eq_spec. Qed.
+Print Assumptions C07_model_eq_spec.
+
 (* ---------------------------------------------------------------- touch predicate *)
 Theorem C07_touch_exact_spec : forall nf z r z' r',
   (0 <= nf)%Z -> dnonneg r -> dnonneg r' ->
@@ -116,6 +140,39 @@ Theorem C07_touch_float_sound_partial : forall u nf ri rj d e1 e2 e3 e4 : R,
   ((nf * (ri + rj) * (1 + 8 * u) < d)%R -> (lhs < rhs)%R).
 Proof. exact touch_float_sound. Qed.
 Print Assumptions C07_touch_float_sound_partial.
+
+(* PARTIAL, sharper: mps_ftouchnwt with the three arithmetic roundings (the two component
+   subtractions, the sum of the radii, the product by n) taken from Flocq's binary64 format
+   (round to nearest even); still assumed: intermediate results normal or zero, cabs within one unit
+   roundoff of the modulus of the rounded difference, no overflow (the DBL_MAX/(2n) guard is only
+   covered by the correspondence check). *)
+Theorem C07_ftouch_flocq_partial : forall nf ri rj xi yi xj yj m : R,
+  (0 <= nf)%R -> (0 <= ri)%R -> (0 <= rj)%R ->
+  normal_or_zero (xi - xj) -> normal_or_zero (yi - yj) ->
+  normal_or_zero (ri + rj) -> normal_or_zero (nf * rnd64 (ri + rj)) ->
+  let dx' := rnd64 (xi - xj) in
+  let dy' := rnd64 (yi - yj) in
+  (exists e4, (Rabs e4 <= u64)%R /\ m = (sqrt (dx' * dx' + dy' * dy') * (1 + e4))%R) ->
+  let D := sqrt ((xi - xj) * (xi - xj) + (yi - yj) * (yi - yj)) in
+  let L := (nf * (ri + rj))%R in
+  let coded := rnd64 (nf * rnd64 (ri + rj)) in
+  ((D * (1 + 8 * u64) <= L)%R -> (m <= coded)%R) /\ ((L * (1 + 8 * u64) < D)%R -> (coded < m)%R).
+Proof. exact ftouch_flocq. Qed.
+Print Assumptions C07_ftouch_flocq_partial.
+
+(* PARTIAL: DPE / MP variants under a rounding model of the rdpe operations (relative error u for
+   add, mul_eq_d and the component subtractions, 3u for cdpe_mod; exact rdpe_ge on non-negative
+   operands): same 8u margin.  The rdpe operations themselves are C12's subject. *)
+Theorem C07_dtouch_sound_partial : forall u nf ri rj dx dy a b e1 e2 e4 m : R,
+  (0 <= u <= 1 / 16)%R -> (0 <= nf)%R -> (0 <= ri)%R -> (0 <= rj)%R ->
+  (Rabs a <= u)%R -> (Rabs b <= u)%R -> (Rabs e1 <= u)%R -> (Rabs e2 <= u)%R -> (Rabs e4 <= 3 * u)%R ->
+  m = (sqrt ((dx * (1 + a)) * (dx * (1 + a)) + (dy * (1 + b)) * (dy * (1 + b))) * (1 + e4))%R ->
+  let D := sqrt (dx * dx + dy * dy) in
+  let L := (nf * (ri + rj))%R in
+  let coded := (nf * ((ri + rj) * (1 + e1)) * (1 + e2))%R in
+  ((D * (1 + 8 * u) <= L)%R -> (m <= coded)%R) /\ ((L * (1 + 8 * u) < D)%R -> (coded < m)%R).
+Proof. exact dtouch_sound. Qed.
+Print Assumptions C07_dtouch_sound_partial.
 
 (* ---------------------------------------------------------------- non-vacuity *)
 (* chain 0-1-2 (0 and 2 do not touch), 3 isolated, all in one old cluster listed 0,2,1,3:
@@ -147,8 +204,8 @@ Proof. vm_compute. split; reflexivity. Qed.
 (* the parallel model with a different splice order gives another list order, same classes *)
 Example C07_ex_par :
   cluster_par (fun q => 0) ex_T false [[0; 2; 1; 3]] = Some [[3]; [2; 1; 0]] /\
-  cluster_par (fun q => pred (length q)) ex_T false [[0; 2]; [1; 3]] = Some [[3]; [2]; [1]; [0]] /\
-  cluster_par (fun q => pred (length q)) (fun _ _ => true) false [[0; 1; 2; 3]] = Some [[1; 2; 3; 0]] /\
+  cluster_par (fun q => Nat.pred (length q)) ex_T false [[0; 2]; [1; 3]] = Some [[3]; [2]; [1]; [0]] /\
+  cluster_par (fun q => Nat.pred (length q)) (fun _ _ => true) false [[0; 1; 2; 3]] = Some [[1; 2; 3; 0]] /\
   cluster_par (fun q => 0) (fun _ _ => true) false [[0; 1; 2; 3]] = Some [[3; 2; 1; 0]].
 Proof. vm_compute. repeat split; reflexivity. Qed.
 
@@ -168,7 +225,7 @@ Definition pair_idx (i j : nat) : nat := let a := max i j in let b := min i j in
 Definition T_of_mask (m i j : nat) : bool := (i =? j) || Nat.testbit m (pair_idx i j).
 Definition same_classb (cs : clustering) (i j : nat) : bool := existsb (fun c => mem i c && mem j c) cs.
 Definition agree4 (m : nat) (old : clustering) : bool :=
-  match cluster_seq (T_of_mask m) false old, cluster_par (fun q => pred (length q)) (T_of_mask m) false old with
+  match cluster_seq (T_of_mask m) false old, cluster_par (fun q => Nat.pred (length q)) (T_of_mask m) false old with
   | Some new, Some newp =>
     forallb (fun i => forallb (fun j =>
       Bool.eqb (same_classb new i j) (same_classb (components (T_of_mask m) old) i j) &&
@@ -179,3 +236,11 @@ Example C07_ex_exhaustive4 :
   forallb (fun m => agree4 m [[0; 1; 2; 3]] && agree4 m [[2; 0; 3; 1]] && agree4 m [[0; 3]; [2; 1]]
                     && agree4 m [[3]; [1; 2; 0]]) (seq 0 64) = true.
 Proof. vm_compute. reflexivity. Qed.
+
+Example C07_ex_normal_or_zero : normal_or_zero 0 /\ normal_or_zero 1 /\ (0 < u64 <= 1 / 16)%R.
+Proof.
+  split; [left; reflexivity|]. split.
+  - right. rewrite Rabs_R1. change 1%R with (bpow radix2 0). apply bpow_le. lia.
+  - split; [|exact (proj2 u64_bounds)]. unfold u64. apply Rmult_lt_0_compat; [|apply bpow_gt_0].
+    apply Rinv_0_lt_compat. apply IZR_lt. reflexivity.
+Qed.
